@@ -251,6 +251,8 @@ def handles(ctx):
     for fname in ('on_le_connect_ind', 'create_le_connection'):
         fn = ctl.methods.get(fname)
         ev = [c for c in calls_in(fn) if call_attr(c) == 'HCI_LE_Connection_Complete_Event'] if fn else []
+        # failure completions (a status other than SUCCESS, no connection) conclude the procedure without a handle
+        ev = [c for c in ev if (norm(kwarg(c, 'status')) if kwarg(c, 'status') is not None else '').split('.')[-1] in ('SUCCESS', 'HCI_SUCCESS')]
         ok = len(ev) == 1 and norm(kwarg(ev[0], 'peer_address')) == 'peer_address' and 'connection.handle' in norm(kwarg(ev[0], 'connection_handle'))
         R.check(ok, rule, f'{CTRL}.{fname} | completion event', 'reports the handle just allocated and the peer address of the new connection', 'connection complete event does not report the new connection\'s handle / peer address', p.loc(fn) if fn else '')
 
